@@ -234,6 +234,13 @@ func WatchPipes(s mangos.Socket) *PipeWatch {
 	return w
 }
 
+// Pipes returns the pipes that attached so far.
+func (w *PipeWatch) Pipes() []mangos.Pipe {
+	w.mu.Lock()
+	defer w.mu.Unlock()
+	return append([]mangos.Pipe{}, w.pipes...)
+}
+
 func (w *PipeWatch) Attached() int { w.mu.Lock(); defer w.mu.Unlock(); return w.attached }
 func (w *PipeWatch) Detached() int { w.mu.Lock(); defer w.mu.Unlock(); return w.detached }
 func (w *PipeWatch) Live() int     { w.mu.Lock(); defer w.mu.Unlock(); return w.attached - w.detached }
